@@ -24,6 +24,10 @@ open ApiFu ApiFu.C09
 
 namespace ApiFu.C09.Driver
 
+abbrev Cursor := Int
+
+def ltInt (a b : Int) : Bool := decide (a < b)
+
 def optInt? : Sexp → Option (Option Int)
   | Sexp.atom "none" => some none
   | x => x.int?.map some
@@ -62,11 +66,11 @@ def errName : Err → String
   | .invalidAfter => "invalid-after"
   | .invalidBefore => "invalid-before"
 
-def callSexp : Call → Sexp
+def callSexp : Call Cursor → Sexp
   | .all => Sexp.atom "all"
   | .window a b l => Sexp.node "w" [ofOptInt a, ofOptInt b, Sexp.ofInt l]
 
-def piSexp : Option PageInfo → Sexp
+def piSexp : Option (PageInfo Cursor) → Sexp
   | none => Sexp.atom "none"
   | some p => Sexp.node "pi" [Sexp.ofBool p.hasPreviousPage, Sexp.ofBool p.hasNextPage, ofOptInt p.startCursor, ofOptInt p.endCursor]
 
@@ -79,7 +83,7 @@ def handle (line : String) : String :=
   | some (Sexp.list [Sexp.atom "direct", es, a, b, f, l]) =>
     match ints? es, optInt? a, optInt? b, optInt? f, optInt? l with
     | some es, some a, some b, some f, some l =>
-      match edgesToReturn isort es a b f l with
+      match edgesToReturn ltInt (isort ltInt) es a b f l with
       | none => "panic"
       | some (out, p) =>
         toString (Sexp.node "ok" [ofInts out, Sexp.ofBool p.hasPreviousPage, Sexp.ofBool p.hasNextPage,
@@ -88,10 +92,10 @@ def handle (line : String) : String :=
   | some (Sexp.list [Sexp.atom "relay", es, a, b, f, l]) =>
     match ints? es, optInt? a, optInt? b, optInt? f, optInt? l with
     | some es, some a, some b, some f, some l =>
-      match Relay.edgesToReturn es b a f l with
+      match Relay.edgesToReturn ltInt es b a f l with
       | none => "error"
       | some out =>
-        toString (Sexp.node "ok" [ofInts out, reqSexp (Relay.hasPreviousPage es b a f l), reqSexp (Relay.hasNextPage es b a f l)])
+        toString (Sexp.node "ok" [ofInts out, reqSexp (Relay.hasPreviousPage ltInt es b a f l), reqSexp (Relay.hasNextPage ltInt es b a f l)])
     | _, _, _, _, _ => "bad-op"
   | some (Sexp.list [Sexp.atom "conn", Sexp.atom mode, es, tc, Sexp.atom sp, Sexp.atom st, f, l, a, b, Sexp.list (Sexp.atom "table" :: tbl)]) =>
     match ints? es, optInt? tc, optInt? f, optInt? l, curArg? a, curArg? b, tbl.mapM tableEntry? with
@@ -104,9 +108,9 @@ def handle (line : String) : String :=
         match tbl.find? (fun e => e.1 == (a, b, lim)) with
         | some e => e.2
         | none => []
-      let app : App := { allEdges := es, getter := getter, totalCount := tc }
+      let app : App Cursor := { allEdges := es, getter := getter, totalCount := tc }
       let m : Mode := if mode == "all" then .all else .window
-      match resolve isort dec app m { first := f, last := l, after := astr, before := bstr }
+      match resolve ltInt (isort ltInt) dec app m { first := f, last := l, after := astr, before := bstr }
               { pageInfo := sp == "true", totalCount := st == "true" } with
       | .error e => toString (Sexp.node "error" [Sexp.atom (errName e)])
       | .crash => "crash"
